@@ -25,6 +25,15 @@ CLAIMS = {
                 "Staleness is realised as 'the single output file is missing'. Backend = recording stub (the real backends are C07/C08).",
         "design": "DESIGN.md section 4, C02",
     },
+    "C07": {
+        "text": "Bounded symbolic model checking of the four backends' submit paths over scheduler simulators: the argv/request each scheduler receives is parsed by an "
+                "independent reference reader of its dependency syntax and must name exactly the job ids returned for the incomplete direct dependencies, with the holding "
+                "kind that never releases on failure (afterok / done() / pool deps; hold_jid for SGE); ids survive the stdout round trip and a second gwf invocation; "
+                "finish times are symbolic so that 'start >= finish of every required job under every schedule the contract allows' is decided by the solver.",
+        "note": "Bound: <=3 prerequisites from an id catalogue, 4-target workflow, two invocations, 5 abstract job states. Trusted: simulator output formats (documented formats for "
+                "the flags gwf passes), the reference readers, the assumption that schedulers honour their dependency syntax.",
+        "design": "DESIGN.md section 4, C07",
+    },
 }
 
 PENDING = {}
